@@ -449,19 +449,18 @@ func (c *fctx) locWrites(e *env, loc spec.Expr) []locWrite {
 		}
 		if ar, ok := types.Unalias(t.Elem()).Underlying().(*types.Array); ok {
 			es := c.S.SortOf(ar.Elem())
-			return []locWrite{{c.elemKey(es), c.elemSort(es), v.t}}
+			return []locWrite{{c.elemKey(ar.Elem()), c.elemSort(es), v.t}}
 		}
 		srt := c.S.SortOf(t.Elem())
-		return []locWrite{{"P:" + srt, "(Array Int " + srt + ")", v.t}}
+		return []locWrite{{c.cellKey(t.Elem()), "(Array Int " + srt + ")", v.t}}
 	case *types.Slice:
 		es := c.S.SortOf(t.Elem())
-		return []locWrite{{c.elemKey(es), c.elemSort(es), "(sbase " + v.t + ")"}}
+		return []locWrite{{c.elemKey(t.Elem()), c.elemSort(es), "(sbase " + v.t + ")"}}
 	case *types.Map:
-		ks, vs := c.S.SortOf(t.Key()), c.S.SortOf(t.Elem())
 		return []locWrite{
-			{"MH:" + ks, "(Array Int (Array " + ks + " Bool))", v.t},
-			{"MV:" + ks + ":" + vs, "(Array Int (Array " + ks + " " + vs + "))", v.t},
-			{"ML", "(Array Int Int)", v.t},
+			{c.mapHasKey(t), c.mapHasSort(t), v.t},
+			{c.mapValKey(t), c.mapValSort(t), v.t},
+			{c.mapLenKey(t), "(Array Int Int)", v.t},
 		}
 	}
 	c.errorf("assigns: unsupported location %s of type %s", loc, v.gt)
@@ -481,7 +480,7 @@ func (c *fctx) builtin(fr *frame, b *ssa.Builtin, cm *ssa.CallCommon, reach stri
 		case *types.Slice:
 			return val{t: "(slen " + v.t + ")"}
 		case *types.Map:
-			r := c.define("maplen", "Int", fmt.Sprintf("(ite (= %s 0) 0 (select %s %s))", v.t, c.region(st, "ML", "(Array Int Int)"), v.t))
+			r := c.define("maplen", "Int", fmt.Sprintf("(ite (= %s 0) 0 (select %s %s))", v.t, c.region(st, c.mapLenKey(t), "(Array Int Int)"), v.t))
 			c.assume(fmt.Sprintf("(>= %s 0)", r))
 			return val{t: r}
 		case *types.Array:
@@ -503,13 +502,13 @@ func (c *fctx) builtin(fr *frame, b *ssa.Builtin, cm *ssa.CallCommon, reach stri
 	case "delete":
 		mt := types.Unalias(cm.Args[0].Type()).Underlying().(*types.Map)
 		m, k := arg(0).t, c.termOf(arg(1), "map key")
-		ks := c.S.SortOf(mt.Key())
-		hk, hs := "MH:"+ks, "(Array Int (Array "+ks+" Bool))"
+		hk, hs := c.mapHasKey(mt), c.mapHasSort(mt)
+		lk := c.mapLenKey(mt)
 		has := c.region(st, hk, hs)
-		ml := c.region(st, "ML", "(Array Int Int)")
+		ml := c.region(st, lk, "(Array Int Int)")
 		c.noteWrite(hk, m, reach, pos, fr, st)
-		c.noteWrite("ML", m, reach, pos, fr, st)
-		c.setRegion(st, "ML", "(Array Int Int)", fmt.Sprintf("(ite (and (not (= %s 0)) (select (select %s %s) %s)) (store %s %s (- (select %s %s) 1)) %s)", m, has, m, k, ml, m, ml, m, ml))
+		c.noteWrite(lk, m, reach, pos, fr, st)
+		c.setRegion(st, lk, "(Array Int Int)", fmt.Sprintf("(ite (and (not (= %s 0)) (select (select %s %s) %s)) (store %s %s (- (select %s %s) 1)) %s)", m, has, m, k, ml, m, ml, m, ml))
 		c.setRegion(st, hk, hs, fmt.Sprintf("(ite (= %s 0) %s (store %s %s (store (select %s %s) %s false)))", m, has, has, m, has, m, k))
 		return val{}
 	case "min", "max":
@@ -532,7 +531,7 @@ func (c *fctx) doAppend(fr *frame, cm *ssa.CallCommon, reach string, st *state, 
 	st0 := types.Unalias(cm.Args[0].Type()).Underlying().(*types.Slice)
 	et := st0.Elem()
 	es := c.S.SortOf(et)
-	key, srt := c.elemKey(es), c.elemSort(es)
+	key, srt := c.elemKey(et), c.elemSort(es)
 	h := c.region(st, key, srt)
 	var n string
 	var srcAt func(j string) string
@@ -542,7 +541,7 @@ func (c *fctx) doAppend(fr *frame, cm *ssa.CallCommon, reach string, st *state, 
 	} else {
 		n = "(slen " + src.t + ")"
 		srcAt = func(j string) string {
-			return fmt.Sprintf("(select (select %s (sbase %s)) (+ (soff %s) %s))", h, src.t, src.t, j)
+			return fmt.Sprintf("(select (select %s (sbase %s)) (idx (soff %s) %s))", h, src.t, src.t, j)
 		}
 	}
 	nlen := c.define("aplen", "Int", fmt.Sprintf("(+ (slen %s) %s)", s, n))
@@ -556,10 +555,10 @@ func (c *fctx) doAppend(fr *frame, cm *ssa.CallCommon, reach string, st *state, 
 	c.noteWriteCond(key, "(sbase "+s+")", and(reach, fits, fmt.Sprintf("(> %s 0)", n)), pos, fr, st)
 	c.loopCheck(fr, key)
 	arr := c.fresh("aparr", "(Array Int "+es+")")
-	// old elements are kept
-	c.assume(fmt.Sprintf("(forall ((j!p Int)) (! (=> (and (<= 0 j!p) (< j!p (slen %s))) (= (select %s (+ (soff %s) j!p)) (select (select %s (sbase %s)) (+ (soff %s) j!p)))) :pattern ((select %s (+ (soff %s) j!p)))))", s, arr, res, h, s, s, arr, res))
-	// appended elements
-	c.assume(fmt.Sprintf("(forall ((j!p Int)) (! (=> (and (<= 0 j!p) (< j!p %s)) (= (select %s (+ (soff %s) (slen %s) j!p)) %s)) :pattern ((select %s (+ (soff %s) (slen %s) j!p)))))", n, arr, res, s, srcAt("j!p"), arr, res, s))
+	// old elements are kept, appended elements follow (one axiom, triggered on the result element)
+	c.assume(fmt.Sprintf("(forall ((j!p Int)) (! (=> (and (<= 0 j!p) (< j!p %s)) (= (select %s (idx (soff %s) j!p)) (ite (< j!p (slen %s)) (select (select %s (sbase %s)) (idx (soff %s) j!p)) %s))) :pattern ((select %s (idx (soff %s) j!p)))))", nlen, arr, res, s, h, s, s, srcAt("(- j!p (slen "+s+"))"), arr, res))
+	// appended elements, triggered on the source element
+	c.assume(fmt.Sprintf("(forall ((j!p Int)) (! (=> (and (<= 0 j!p) (< j!p %s)) (= (select %s (idx (soff %s) (+ (slen %s) j!p))) %s)) :pattern (%s)))", n, arr, res, s, srcAt("j!p"), srcAt("j!p")))
 	// in place: everything outside the appended window is unchanged
 	c.assume(fmt.Sprintf("(=> %s (forall ((x!p Int)) (! (=> (or (< x!p (+ (soff %s) (slen %s))) (>= x!p (+ (soff %s) %s))) (= (select %s x!p) (select (select %s (sbase %s)) x!p))) :pattern ((select %s x!p)))))", fits, s, s, s, nlen, arr, h, s, arr))
 	c.setRegion(st, key, srt, fmt.Sprintf("(store %s (sbase %s) %s)", h, res, arr))
@@ -575,7 +574,7 @@ func (c *fctx) doCopy(fr *frame, cm *ssa.CallCommon, reach string, st *state, po
 	src := c.operand(fr, cm.Args[1])
 	et := types.Unalias(cm.Args[0].Type()).Underlying().(*types.Slice).Elem()
 	es := c.S.SortOf(et)
-	key, srt := c.elemKey(es), c.elemSort(es)
+	key, srt := c.elemKey(et), c.elemSort(es)
 	h := c.region(st, key, srt)
 	var n string
 	var srcAt func(j string) string
@@ -585,13 +584,13 @@ func (c *fctx) doCopy(fr *frame, cm *ssa.CallCommon, reach string, st *state, po
 	} else {
 		n = "(slen " + src.t + ")"
 		srcAt = func(j string) string {
-			return fmt.Sprintf("(select (select %s (sbase %s)) (+ (soff %s) %s))", h, src.t, src.t, j)
+			return fmt.Sprintf("(select (select %s (sbase %s)) (idx (soff %s) %s))", h, src.t, src.t, j)
 		}
 	}
 	cnt := c.define("cpn", "Int", fmt.Sprintf("(ite (<= (slen %s) %s) (slen %s) %s)", dst, n, dst, n))
 	c.noteWrite(key, "(sbase "+dst+")", and(reach, fmt.Sprintf("(> %s 0)", cnt)), pos, fr, st)
 	arr := c.fresh("cparr", "(Array Int "+es+")")
-	c.assume(fmt.Sprintf("(forall ((j!p Int)) (! (=> (and (<= 0 j!p) (< j!p %s)) (= (select %s (+ (soff %s) j!p)) %s)) :pattern ((select %s (+ (soff %s) j!p)))))", cnt, arr, dst, srcAt("j!p"), arr, dst))
+	c.assume(fmt.Sprintf("(forall ((j!p Int)) (! (=> (and (<= 0 j!p) (< j!p %s)) (= (select %s (idx (soff %s) j!p)) %s)) :pattern ((select %s (idx (soff %s) j!p)))))", cnt, arr, dst, srcAt("j!p"), arr, dst))
 	c.assume(fmt.Sprintf("(forall ((x!p Int)) (! (=> (or (< x!p (soff %s)) (>= x!p (+ (soff %s) %s))) (= (select %s x!p) (select (select %s (sbase %s)) x!p))) :pattern ((select %s x!p))))", dst, dst, cnt, arr, h, dst, arr))
 	c.setRegion(st, key, srt, fmt.Sprintf("(ite (= (sbase %s) 0) %s (store %s (sbase %s) %s))", dst, h, h, dst, arr))
 	return val{t: cnt}
